@@ -9,10 +9,10 @@ pub fn law<T: Serialize + Deserialize, const N: usize>(x: &T, buf: &mut [u8; N])
     assert!(n % ALIGN == 0, "C01 encoded size is word aligned");
     assert!(n == x.size_static() + x.size_dynamic(), "C01 size = static + dynamic");
     assert!(n <= N);
-    let mut out: &mut [u8] = &mut buf[..];
-    x.encode(&mut out).expect("C01 encode into a large enough buffer succeeds");
-    let written = N - out.len();
-    assert!(written == n, "C01 encode writes exactly size() bytes");
+    // a buffer of exactly size() bytes must suffice
+    let mut out: &mut [u8] = &mut buf[..n];
+    x.encode(&mut out).expect("C01 encode into a buffer of exactly size() bytes succeeds");
+    assert!(out.is_empty(), "C01 encode writes exactly size() bytes");
     let mut inp: &[u8] = &buf[..n];
     let y = T::decode(&mut inp).expect("C01 decode of an encoding succeeds");
     assert!(inp.is_empty(), "C01 decode consumes exactly the encoded bytes");
@@ -101,13 +101,15 @@ fn c02_vec_u8_arbitrary() {
     let raw: [u8; 24] = kani::any();
     let len: usize = kani::any();
     kani::assume(len <= 24);
-    // huge length prefixes allocate up to VEC_DECODE_LIMIT before failing: keep the prefix below the buffer (stated gap)
-    kani::assume(raw[0] == 0 && raw[1] == 0 && raw[2] == 0 && raw[3] == 0 && raw[4] == 0 && raw[5] == 0 && raw[6] == 0 && raw[7] < 32);
+    // length prefixes in [32, VEC_DECODE_LIMIT] allocate that many bytes before failing on the short buffer:
+    // not modelled (stated gap); every other prefix value, including huge ones, is covered
+    let prefix = u64::from_be_bytes([raw[0], raw[1], raw[2], raw[3], raw[4], raw[5], raw[6], raw[7]]);
+    kani::assume(prefix < 32 || prefix > VEC_DECODE_LIMIT as u64);
     let mut inp: &[u8] = &raw[..len];
     if let Ok(v) = Vec::<u8>::decode(&mut inp) {
         let consumed = len - inp.len();
         assert!(v.size() == consumed, "C02 consumed = encoded size");
-        assert!(v.len() == raw[7] as usize);
+        assert!(v.len() as u64 == prefix);
         let mut b2 = [0u8; 32];
         let (w, _) = law(&v, &mut b2);
         assert!(w.len() == v.len(), "C02 fixed point");
